@@ -3,7 +3,7 @@
    over every list of events from the initial state (any number of
    clients and compounds, any interleaving at critical-section
    granularity, any file system results, any clock advances). *)
-From VF Require Import Nfs41.Proofs2PoolThm.
+From VF Require Import Nfs41.Proofs2PoolThm Nfs41.Proofs2Lease.
 Open Scope N_scope.
 
 (* useCount of a pool entry = number of live open-owner files, of all
@@ -67,6 +67,23 @@ Theorem expiry_leaves_nothing : forall cfg c0 evs,
   /\ forall h b, balance h b (snd (run (init cfg c0) evs) ++ snd (enter st)) = 0%Z.
 Proof. exact enter_after_all_leases_lapsed_full. Qed.
 Print Assumptions expiry_leaves_nothing.
+
+(* Leases.  enter() walks the idle list from its head and stops at the
+   first incarnation whose lease has not lapsed; this is correct because the
+   idle list is ordered by lastSeen ([lease_inv]: sorted, nobody seen in the
+   future, nobody idle with a lapsed lease).  Consequently, after every
+   event: an incarnation without requests in flight has now <= lastSeen +
+   lease -- no client whose lease has lapsed survives the enter() that every
+   request starts with. *)
+Theorem idle_list_ordered_by_last_seen : forall cfg c0 evs, lease_inv (fst (run (init cfg c0) evs)).
+Proof. exact reachable_lease_inv. Qed.
+Print Assumptions idle_list_ordered_by_last_seen.
+
+Theorem no_lapsed_idle_client : forall cfg c0 evs c,
+  let st := reachable cfg c0 evs in
+  In c (st_clients st) -> c_hold c = 0 -> st_now st <= c_seen c + cf_lease (st_cfg st).
+Proof. exact no_lapsed_idle. Qed.
+Print Assumptions no_lapsed_idle_client.
 
 (* ==== non-vacuity ============================================================ *)
 (* A client opens file 1, the file is removed, a second compound of the
